@@ -40,7 +40,7 @@ Qed.
 Lemma IB_pool_push n t c s : IB n s -> IB n (pool_push n t c s).
 Proof.
   intros H. unfold pool_push.
-  set (s1 := if share_of s c then upd_tok t (set_marker false) s else s).
+  set (s1 := if share_of s c then upd_tok t (set_marker None) s else s).
   assert (H1 : IB n s1) by (subst s1; destruct (share_of s c); [apply IB_upd_tok; auto|exact H]).
   destruct (walk_waiters t c (share_of s1 c) (p_waiting (get_tok s1 t)) s1) as [[rest moved] s2] eqn:Hw.
   assert (H2 : IB n s2).
@@ -55,10 +55,11 @@ Proof.
   - eapply IB_frame; [apply toks_drop_conn|exact H3].
 Qed.
 
-Lemma IB_pool_cancel n t s : IB n s -> IB n (pool_cancel t s).
+Lemma IB_pool_cancel n t rid s : IB n s -> IB n (pool_cancel t rid s).
 Proof.
-  intros H. unfold pool_cancel. destruct (p_marker (get_tok s t)); [|exact H].
-  set (s1 := upd_tok t (set_marker false) s).
+  intros H. unfold pool_cancel. destruct (p_marker (get_tok s t)) as [o|]; [|exact H].
+  destruct (Nat.eqb o rid); [|exact H].
+  set (s1 := upd_tok t (set_marker None) s).
   assert (H1 : IB n s1) by (apply IB_upd_tok; auto).
   destruct (release_pending (p_waiting (get_tok s1 t)) s1) as [rest s2] eqn:Hr.
   apply IB_upd_tok; auto. eapply IB_frame; [|exact H1].
@@ -147,7 +148,7 @@ Proof.
   set (started := match get_dial s1 rid with Some d => match d_stage d with DNew => false | _ => true end | None => false end).
   set (delayed := match k_inner ck with IDelayDrop => started | _ => false end).
   set (s2 := if delayed then spawn (TDelayed rid (k_token ck) (k_owner ck)) s1
-             else if g_pool cfg && negb (k_token ck =? 0) && k_owner ck then pool_cancel (k_token ck) s1 else s1).
+             else if g_pool cfg && negb (k_token ck =? 0) && k_owner ck then pool_cancel (k_token ck) rid s1 else s1).
   assert (H2 : IB n s2).
   { subst s2. destruct delayed; [exact H1|].
     destruct (g_pool cfg && negb (k_token ck =? 0) && k_owner ck); [apply IB_pool_cancel|]; exact H1. }
@@ -166,9 +167,10 @@ Proof.
   destruct (pool_pop (g_timeout cfg) t s1) as [found s2] eqn:Hp.
   assert (H2 : IB n s2) by (eapply IB_pool_pop; [exact H1|exact Hp]).
   destruct found; [exact H2|].
-  set (s3 := upd_tok t (fun q => set_waiting (p_waiting q ++ [(List.length (reqs s), p_marker (get_tok s2 t))]) q) s2).
+  set (pending := match p_marker (get_tok s2 t) with Some _ => true | None => false end).
+  set (s3 := upd_tok t (fun q => set_waiting (p_waiting q ++ [(List.length (reqs s), pending)]) q) s2).
   assert (H3 : IB n s3) by (apply IB_upd_tok; auto).
-  destruct (p_marker (get_tok s2 t)); [exact H3|].
+  destruct pending; [exact H3|].
   destruct p; cbn; [exact H3|]. apply IB_upd_tok; auto.
 Qed.
 
@@ -211,8 +213,8 @@ Proof.
     + destruct (register cfg t c s1) as [p s2] eqn:Hreg.
       assert (H2 : IB n s2) by (eapply IB_register; [exact Hn|exact H1|exact Hreg]).
       eapply IB_frame; [apply toks_pooled_drop|].
-      destruct (g_pool cfg && negb (t =? 0) && own); [apply (IB_pool_cancel n t s2 H2)|exact H2].
-    + destruct (g_pool cfg && negb (t =? 0) && own); [apply (IB_pool_cancel n t s1 H1)|exact H1].
+      destruct (g_pool cfg && negb (t =? 0) && own); [apply (IB_pool_cancel n t rid s2 H2)|exact H2].
+    + destruct (g_pool cfg && negb (t =? 0) && own); [apply (IB_pool_cancel n t rid s1 H1)|exact H1].
 Qed.
 
 Lemma IB_bg_loop n cfg fuel : forall s, g_max_idle cfg = n -> IB n s -> IB n (bg_loop cfg fuel s).
